@@ -161,6 +161,52 @@ func genHistory(r *gen.Rand, f gen.Flags) history {
 	return h
 }
 
+// genSpecial generates a short history outside the Lean model: a path changing between file and submodule link
+// ("gitlink"), or a repository with an unchanged .sourcegraph/ignore file ("ignore"), or one whose ignore file
+// changes ("ignore-change": the documented fall-back to a normal build).
+func genSpecial(r *gen.Rand, kind string) history {
+	h := history{Kind: kind, Contents: baseContents()}
+	file := func(c int) ent { return ent{Content: c, Mode: "100644"} }
+	link := ent{Content: -1, Mode: "160000"}
+	idx := func(delta bool) *indexRec { return &indexRec{Delta: delta, Branches: []string{"HEAD"}} }
+	base := map[string]ent{"a.txt": file(r.Intn(3)), "dir/c.txt": file(r.Intn(3))}
+	switch kind {
+	case "gitlink":
+		t0, t1 := cloneTree(base), cloneTree(base)
+		p := gen.Pick(r, []string{"e", "dir/g"})
+		if r.Bool() {
+			t0[p], t1[p] = file(4), link // file becomes a submodule link
+		} else {
+			t0[p], t1[p] = link, file(4) // submodule link becomes a file
+		}
+		if r.Bool() {
+			t1["b.txt"] = file(5)
+		}
+		h.Steps = []stepRec{
+			{Commits: []commitRec{{Branch: "main", Tree: t0, Why: "init"}}, Index: idx(false)},
+			{Commits: []commitRec{{Branch: "main", Tree: t1, Why: "gitlink-change"}}, Index: idx(true)},
+		}
+	case "ignore", "ignore-change":
+		h.Contents = append(h.Contents, "# comment\nsecret\n\n/dir/sub\n", "other\n")
+		ig, ig2 := len(h.Contents)-2, len(h.Contents)-1
+		t0 := cloneTree(base)
+		t0[".sourcegraph/ignore"] = file(ig)
+		t0["secret/x.txt"] = file(1)
+		t1 := cloneTree(t0)
+		t1[gen.Pick(r, []string{"secret/y.txt", "dir/sub/d.go", "secret2"})] = file(6)
+		t1["b.txt"] = file(5)
+		if kind == "ignore-change" {
+			t1[".sourcegraph/ignore"] = file(ig2)
+			t1["other/z"] = file(7)
+		}
+		h.Steps = []stepRec{
+			{Commits: []commitRec{{Branch: "main", Tree: t0, Why: "init"}}, Index: idx(false)},
+			{Commits: []commitRec{{Branch: "main", Tree: t1, Why: kind}}, Index: idx(true)},
+		}
+	}
+	return h
+}
+
 func pickIndexed(r *gen.Rand, branches []string) []string {
 	var out []string
 	if r.Chance(1, 3) {
@@ -644,8 +690,15 @@ func main() {
 	r := gen.NewRand(f.Seed)
 	n := f.N(14, 400)
 	t0 := time.Now()
-	for i := 0; i < n; i++ {
-		rn.run(genHistory(r.Fork(), f), fmt.Sprint(i))
+	if os.Getenv("C13_ONLY_SPECIAL") == "" {
+		for i := 0; i < n; i++ {
+			rn.run(genHistory(r.Fork(), f), fmt.Sprint(i))
+		}
+	}
+	for i := 0; i < f.N(2, 12); i++ {
+		for _, kind := range []string{"gitlink", "ignore", "ignore-change"} {
+			rn.run(genSpecial(r.Fork(), kind), kind)
+		}
 	}
 	fmt.Fprintf(os.Stderr, "timing: total=%v index=%v open=%v close=%v\n", time.Since(t0), tIndex, tOpen, tClose)
 }
